@@ -6,7 +6,8 @@ concurrent suites are built from.
 * A *forwarder program* (`Op` list) is what one thread does with its own `ThreadsafeForwardingResult`.
   `stepOp` transcribes the class: `time/tags/startTest/stopTest` only touch forwarder-local state
   (`Loc`); an outcome becomes one *section* `acquire · time(start) · startTest · time(now) ·
-  [tags global] · [tags test] · outcome · stopTest · release` and a control call
+  [tags global] · [tags test] · outcome · stopTest · release` (the buffered tags stay buffered: every outcome of a
+  test replays them, `stopTest()` forgets the test-local ones) and a control call
   (`startTestRun/stopTestRun/stop/done/shouldStop`) becomes `acquire · call · release`.
 * A *fault plan* of a thread is a list of indices into that thread's own sequence of target calls; the
   call with such an index raises.  The calls that follow a raise are those of the code's
@@ -78,7 +79,7 @@ deriving DecidableEq, Repr, Inhabited
 
 /-- what travels through the completion queue of the concurrent suites (C13) -/
 inductive Item where
-  | fin (w : Nat)          -- ConcurrentTestSuite: the finished sub-suite
+  | fin (w : Nat)          -- ConcurrentTestSuite: the finished worker's Thread object
   | startRun (w : Nat)     -- StreamToQueue.startTestRun
   | stopRun (w : Nat)      -- StreamToQueue.stopTestRun
   | status (e : SEv)       -- StreamToQueue.status
@@ -177,7 +178,9 @@ def stepOp (faults : List Nat) (l : Loc) : Op → OpRes
         let rs := faults.contains (pre.2.1 + 1)
         -- the outcome, then `stopTest` in the inner `finally` whatever the outcome did
         { sec := some (pre.1 ++ [(.outcome k id, ro), (.stopTest id, rs)]), raised := ro || rs,
-          loc := { l with ttags := ([], []), n := pre.2.1 + 2,
+          -- `_test_tags` is NOT consumed: a second outcome of the same test (stdlib unittest: failing body + failing tearDown)
+          -- replays the same test-local tags; `stopTest()` / `startTestRun()` reset them
+          loc := { l with n := pre.2.1 + 2,
                           start := if ro || rs then l.start else .unset } }
   | .ctl c =>
       let r := faults.contains l.n
